@@ -103,6 +103,7 @@ var shapes = map[string]*shape{
 	"HasMapAny":    stc("map", fd("M", mpo(shAny))),
 	"HasMapN":      stc("map", fd("M", &shape{kind: "map", elem: shInt, elemNul: true}), fd("LL", lst(lst(shStr, false), false)), fn("NL", lst(shInt, false))),
 	"HasMapOpt":    stc("map", fd("M", mpo(stc("map", fo("A", shStr), fd("L", lst(shInt, false)), fd("M", mpo(shInt)))))),
+	"OptColl":      stc("map", fo("L", lst(shStr, false)), fn("B", shBytes), fo("M", mpo(shInt)), fn("NL", lst(shInt, false)), fo("OB", shBytes), fd("Z", shInt)),
 	"HasUK2":       stc("map", fd("A", shUK2), fd("B", shUK2), fd("C", shUK2), fd("D", shUK2)),
 	"BigU":         stc("map", fd("U", shInt), fd("L", lst(shInt, false)), fd("N", lst(lst(shInt, false), false))),
 	"pk1.Foo":      stc("map", fd("A", shStr), fd("N", shInt)),
